@@ -27,11 +27,18 @@ type c01Cmd struct {
 	CG  c01CmdGrp `group:"CmdGrp" namespace:"cg"`
 	Sub c01SubCmd `command:"sub"`
 }
+type c01Bare struct {
+	X int
+	Y string
+}
 type c01Root struct {
 	F        bool   `short:"f" long:"flag"`
 	S        string `short:"s" long:"str"`
 	Fn       func() `long:"fn"`
 	Untagged string
+	// untagged pointers to option-less structs, after options: stay as they are
+	BareNil *c01Bare
+	BareSet *c01Bare
 	NoFlag   string   `no-flag:"yes" long:"nf"`
 	G        c01Grp   `group:"Grp" namespace:"g"`
 	P        c01Plain `group:"Plain"`
@@ -76,6 +83,8 @@ func H_C01_denote(v *V) {
 	d := &c01Root{}
 	d.Untagged = v.String(1)
 	d.NoFlag = v.String(1)
+	bareSet := &c01Bare{X: 7, Y: "y"}
+	d.BareSet = bareSet
 	untagged0, noflag0 := d.Untagged, d.NoFlag
 	fnCalls := 0
 	d.Fn = func() { fnCalls++ }
@@ -250,6 +259,7 @@ func H_C01_denote(v *V) {
 	}
 	v.Assert(v.EqStrs(cbLog, lists[10]), "a callback runs once per occurrence, in order, with the argument")
 	v.Assert(v.EqStr(d.Untagged, untagged0) && v.EqStr(d.NoFlag, noflag0), "fields without an option tag are never modified")
+	v.Assert(d.BareNil == nil && d.BareSet == bareSet && bareSet.X == 7 && bareSet.Y == "y", "untagged pointer fields (nil or set) and what they point to are never modified")
 }
 
 func init() {
